@@ -816,6 +816,10 @@ class Evaluator:
                 if st.finalbody:
                     ok = self.block(st.finalbody, env, pc, fr) and ok
                 return ok
+            look = self._lookup_guard(st, env, fr)
+            if look is not None:
+                # try: x = D[K] ... except KeyError: <handler>  ==  if K in D: ... else: <handler>   (D, K known)
+                return self.branch(look[0], list(st.body) + list(st.orelse), look[1].body, env, pc, fr)
             if st.handlers and not st.finalbody and all(
                     len(h.body) == 1 and isinstance(h.body[0], ast.Return) and isinstance(h.body[0].value, ast.Constant)
                     for h in st.handlers):
@@ -853,6 +857,29 @@ class Evaluator:
                 fr.loops[-1]['breaks'].append((list(pc), _copy_env(env)))
             return False
         raise AnalysisError('VG', fr.fi.qualname, f'statement kind {type(st).__name__}')
+
+    def _lookup_guard(self, st, env, fr):
+        """(condition, handler) when the try body is one assignment `x = D[K]` of a keyed dictionary with a constant
+        key, a handler catches KeyError and there is no finally; None otherwise."""
+        if st.finalbody or len(st.body) != 1 or not isinstance(st.body[0], ast.Assign) or \
+                not isinstance(st.body[0].value, ast.Subscript):
+            return None
+        handler = None
+        for h in st.handlers:
+            names = ['Exception'] if h.type is None else (
+                [ast.unparse(e) for e in h.type.elts] if isinstance(h.type, ast.Tuple) else [ast.unparse(h.type)])
+            if set(names) & {'KeyError', 'LookupError', 'Exception', 'BaseException'}:
+                handler = h
+                break
+        if handler is None:
+            return None
+        sub = st.body[0].value
+        d = self.expr(sub.value, env, fr)
+        k = self.expr(sub.slice, env, fr)
+        if not isinstance(d, DictV) or not isinstance(k, Const) or d.has_symbolic():
+            return None
+        v = d.get(k.v)
+        return Const(not (isinstance(v, Const) and v.v == '__absent__')), handler
 
     def _conversion_guard(self, st, env, fr):
         """(condition, handler) when the first statement of a try body converts a non-numeric value with
@@ -967,8 +994,7 @@ class Evaluator:
         elif isinstance(t, ast.Attribute):
             base = self.expr(t.value, env, fr)
             if isinstance(base, Obj):
-                if not (self.descriptor_sets and base.ci is not None and self._descriptor_store(base, t.attr, v, fr)):
-                    base.fields[t.attr] = v
+                self._store_attr(base, t.attr, v, fr)
             fr.effects.append(('setattr', base, t.attr, v))
         elif isinstance(t, ast.Subscript) and isinstance(t.slice, ast.Slice) and \
                 isinstance(t.value, (ast.Name, ast.Attribute)) \
@@ -1038,6 +1064,34 @@ class Evaluator:
         else:
             raise AnalysisError('VG', fr.fi.qualname, f'assignment target {type(t).__name__}')
 
+    def _instance_dict(self, base):
+        """the instance dictionary of a constructed object as a DictV mirroring its fields."""
+        d = base.fields.get('__dict__')
+        if not isinstance(d, DictV):
+            d = DictV([{}])
+            base.fields['__dict__'] = d
+        for k, x in base.fields.items():
+            if not k.startswith('__') and d.get(k) is not x:
+                d.set(k, x)
+        return d
+
+    def _store_attr(self, base, attr, v, fr, default=False):
+        """obj.attr = v.  With descriptor_sets on: a __setattr__ defined by a repository class of obj's MRO runs
+        (unless `default`: the store comes from super().__setattr__ / object.__setattr__ inside it), then the
+        repository descriptor's __set__, else the plain instance-dictionary store."""
+        if self.descriptor_sets and base.ci is not None:
+            if not default and fr.depth <= MAX_DEPTH - 3:
+                sa = self.m.method(base.ci, '__setattr__')
+                if sa is not None:
+                    self.call(sa, [base, Const(attr), v], {}, fr.depth + 1)
+                    return
+            if self._descriptor_store(base, attr, v, fr):
+                return
+        base.fields[attr] = v
+        d = base.fields.get('__dict__')
+        if isinstance(d, DictV):
+            d.set(attr, v)
+
     def _descriptor_store(self, base, attr, v, fr):
         """obj.attr = v where the class declares attr as an instance of a repository descriptor class with a __set__:
         run that __set__ (its raise outcomes reach the storing frame) on a descriptor object built from the class-level
@@ -1063,10 +1117,7 @@ class Evaluator:
         if not isinstance(descr, Obj):
             return False
         descr.fields['name'] = Const(attr)
-        d = base.fields.get('__dict__')
-        if not isinstance(d, DictV):
-            d = DictV([{k: x for k, x in base.fields.items() if not k.startswith('__')}])
-            base.fields['__dict__'] = d
+        d = self._instance_dict(base)
         self.call(setf, [descr, base, v], {}, fr.depth + 1)
         for k in d.keys():
             base.fields[k] = d.get(k)
@@ -1514,6 +1565,8 @@ class Evaluator:
         if is_unknown(base):
             return base
         if isinstance(base, Obj):
+            if attr == '__dict__' and self.descriptor_sets and base.ci is not None and base.path is None:
+                return self._instance_dict(base)
             if attr in base.fields:
                 return base.fields[attr]
             ci = base.ci
@@ -1611,6 +1664,12 @@ class Evaluator:
             for c in mro[mro.index(here) + 1:]:
                 if n.func.attr in c.methods:
                     return self.call(c.methods[n.func.attr], [fr.self_obj] + args, kwargs, fr.depth + 1)
+            if n.func.attr == '__setattr__' and len(args) == 2 and isinstance(args[0], Const) \
+                    and isinstance(args[0].v, str) and isinstance(fr.self_obj, Obj):
+                # object.__setattr__: the default store (data descriptors of the class first)
+                self._store_attr(fr.self_obj, args[0].v, args[1], fr, default=True)
+                fr.effects.append(('setattr', fr.self_obj, args[0].v, args[1]))
+                return Const(None)
             if 'super:' + n.func.attr in self.hooks:
                 # a base class outside the repository (dict, list, ...): let the rule observe the call and its path condition
                 pc_now = [c for _, pc_ in self._stack for c in pc_]   # the callers' conditions too
@@ -1791,13 +1850,16 @@ class Evaluator:
             cargs = [x for x in (_py_const(a) for a in args) if x is not _NOCONST]
             if len(cargs) == len(args) and not kwargs and meth in (
                     'lower', 'upper', 'replace', 'strip', 'lstrip', 'rstrip', 'startswith', 'endswith',
-                    'split', 'title', 'capitalize', 'isdigit', 'find', 'count'):
+                    'split', 'title', 'capitalize', 'isdigit', 'find', 'count', 'partition', 'rpartition',
+                    'rsplit', 'removeprefix', 'removesuffix', 'isalpha', 'isidentifier', 'casefold', 'index'):
                 try:
                     r = getattr(base.v, meth)(*cargs)
                 except Exception:
                     return Unknown(f'str.{meth} failed')
                 if isinstance(r, list):
                     return Tup(tuple(Const(x) for x in r), 'list')
+                if isinstance(r, tuple):
+                    return Tup(tuple(Const(x) for x in r))
                 if isinstance(r, bool) or isinstance(r, str):
                     return Const(r)
                 return sp.Integer(r)
@@ -2043,7 +2105,7 @@ class Evaluator:
             return self.attr(a[0], a[1].v, fr)
         if name == 'setattr' and len(a) == 3 and isinstance(a[1], Const) and isinstance(a[1].v, str) and isinstance(a[0], Obj):
             # setattr(obj, 'name', v) == obj.name = v
-            a[0].fields[a[1].v] = a[2]
+            self._store_attr(a[0], a[1].v, a[2], fr)
             fr.effects.append(('setattr', a[0], a[1].v, a[2]))
             return Const(None)
         if name == 'hasattr' and len(a) == 2 and isinstance(a[1], Const) and isinstance(a[0], Tup):
